@@ -687,6 +687,21 @@ Section Transfer.
     intros D k s Hk H Hc Ht. eapply obs_ok_inv; [apply P_obs|]. rewrite firstn_chop.
     eapply trunc_at_top; eauto. now apply cut_arith.
   Qed.
+  (* state-free: an accepted prefix carries a prefix of the whole tape; any k *)
+  Theorem trunc_gen_plain : forall D F k t, P D = Ok F -> P (firstn k D) = Ok t -> exists rest, F = t ++ rest.
+  Proof.
+    intros D F k t HF Ht. destruct (le_lt_dec k (length D)) as [Hk|Hk].
+    - destruct (trunc_gen_ok D F k t Hk HF Ht) as (s & _ & _ & _ & _ & G). exact G.
+    - rewrite firstn_all2 in Ht by lia. exists []. rewrite app_nil_r. congruence.
+  Qed.
+
+  (* the whole input need not be accepted: the tapes of two accepted prefixes extend one another *)
+  Theorem trunc_gen_mono : forall D k1 k2 t1 t2, k1 <= k2 -> P (firstn k1 D) = Ok t1 -> P (firstn k2 D) = Ok t2 ->
+    exists rest, t2 = t1 ++ rest.
+  Proof.
+    intros D k1 k2 t1 t2 Hk H1 H2. apply (trunc_gen_plain (firstn k2 D) t2 k1 t1 H2).
+    rewrite firstn_firstn. replace (Nat.min k1 k2) with k1 by lia. exact H1.
+  Qed.
 End Transfer.
 
 Lemma obs_ref_ref : forall d, obs (parse_ref d) = obs (parse_ref d).
